@@ -286,7 +286,7 @@ package plugin
 //@   ensures !held(c.l)   [C19.lock]
 //@   ensures launches == old(launches) && rf_calls == old(rf_calls)   [C19.kill]
 //@   ensures r0 == nil || runner_id(r0) == "" ==> kills == old(kills) && removed == old(removed) && waited == old(waited) && launches == old(launches)   [C04.noop]
-//@   ensures r0 != nil && runner_id(r0) != "" ==> waited[c.clientWaitGroup] && (d0 != "" ==> removed[d0])   [C04.end]
+//@   ensures r0 != nil && runner_id(r0) != "" ==> waited[c.clientWaitGroup] && (d0 != "" ==> removed[d0])   [C04.end] [C18.kill]
 //@   ensures r0 != nil && runner_id(r0) != "" ==> grace || kills[r0] >= old(kills)[r0] + 1   [C04.end]
 //@   ensures grace ==> kills[r0] == old(kills)[r0]   [C04.grace]
 //@   ensures r0 != nil && runner_id(r0) != "" && ak == nil ==> kills[r0] >= old(kills)[r0] + 1   [C04.force] [C05.c]
